@@ -630,6 +630,22 @@ def table_effects_need_writable(ct: Container, rep, rule="session-table-follows-
                 names = {n.attr for n in ast.walk(st.test) if isinstance(n, ast.Attribute) and isinstance(n.value, ast.Name) and n.value.id == "self"}
                 if names and names <= {"_mode", "_inside_context", ct.handle} and effs and all(ff.cfg.dominates(ff.cfg.node_of(st), e.node) for e in effs):
                     conds.append(st.test)
+        # 'the same mutation issued inside a plain (read-only) context RAISES': the refusal also dominates every normal exit - a
+        # path that returns early (nothing to remove, nothing to do) before the handle was asked does not raise there
+        conds_exit = [wg[d][0] for d in decs if wg[d][0] is not None]
+        for st in walk_no_nested(ff.f.node):
+            if isinstance(st, ast.If) and st.body and isinstance(st.body[-1], ast.Raise) and not st.orelse:
+                names = {n.attr for n in ast.walk(st.test) if isinstance(n, ast.Attribute) and isinstance(n.value, ast.Name) and n.value.id == "self"}
+                if names and names <= {"_mode", "_inside_context", ct.handle} and ff.cfg.dominates(ff.cfg.node_of(st), ff.cfg.exit):
+                    conds_exit.append(st.test)
+        silent = [s_ for s_ in sorted(states, key=str) if s_[0] and s_[2] != "rw" and not any(eval_guard(c, s_) for c in conds_exit)]
+        if rule == "read-only-refusal" and silent and not [s_ for s_ in silent if not any(eval_guard(c, s_) for c in conds)]:
+            s_ = silent[0]
+            rets = [x for x in walk_no_nested(ff.f.node) if isinstance(x, ast.Return)]
+            early = next((r for r in rets if not any(isinstance(st, ast.If) and st.body and isinstance(st.body[-1], ast.Raise) and {n.attr for n in ast.walk(st.test) if isinstance(n, ast.Attribute)} & {ct.handle, "_mode"}
+                                                     and ff.cfg.dominates(ff.cfg.node_of(st), ff.cfg.node_of(r)) for st in walk_no_nested(ff.f.node))), ff.f.node)
+            rep.fail(rule, mod, f"Tdf.{name}", early, f"in access state (inside={s_[0]}, mode={s_[1]!r}, handle={s_[2]}) a path of {name} returns normally before anything asked whether the handle can write: "
+                     "the mutation issued in a read-only context does not raise", construct=f"Tdf.{name} returns before the read-only refusal")
         bad = [s_ for s_ in sorted(states, key=str) if s_[0] and s_[2] != "rw" and not any(eval_guard(c, s_) for c in conds)]
         if not bad:
             rep.ok(rule, f"Tdf.{name}: in every reachable in-context access state without a read-write handle the call is refused before any table or file effect", nontrivial=True)
@@ -801,6 +817,8 @@ def run(prog, rep):
     rep.attempt(handle_discipline, ct, rep)
     rep.attempt(mode_lifecycle, ct, rep)
     rep.attempt(guard_table, ct, rep)
+    # .. and in a read-only context the mutation RAISES (it is not enough that no effect is reachable): the refusal dominates every normal exit
+    rep.attempt(table_effects_need_writable, ct, rep, "read-only-refusal")
     rep.attempt(reader_purity, ct, cd, rep)
     # replace_block and the setters have no refusal of their own: a call outside a write context raises only because every path that
     # does not refuse for another reason reaches remove_block / add_block (whose guards the table above evaluates)
